@@ -11,7 +11,7 @@
    hash functions are arbitrary. *)
 From WK Require Import Base.Base Gen.Consts_C29 Model.ChanAppend Model.ChanAppend_C29
      Proof.ChanAppend_coalesce Proof.ChanAppend_expand Proof.ChanAppend_writer
-     Proof.ChanAppend_run Proof.ChanAppend_pipeline.
+     Proof.ChanAppend_run Proof.ChanAppend_pipeline Proof.ChanAppend_store Proof.ChanAppend_monitor.
 From Coq Require Import Sorted Permutation.
 Open Scope N_scope.
 
@@ -50,7 +50,7 @@ Theorem c29_result_completions_aligned : forall items res,
   map cp_item (appendResultCompletions items res) = items
   /\ forall i it, nth_error items i = Some it ->
        nth_error (appendResultCompletions items res) i = Some (arc_one it (nth_error res i)).
-Proof. intros items res. split; [apply arc_items|apply arc_nth_error]. Qed.
+Proof. exact arc_aligned. Qed.
 Print Assumptions c29_result_completions_aligned.
 
 (* activeAppendItems: the live items in order + one error completion per inactive item *)
@@ -192,3 +192,59 @@ Theorem c29_seq_increasing : forall St do_append do_nlookup hashf fp slog Wf,
   r_seq (cp_res c1) < r_seq (cp_res c2).
 Proof. exact pipeline_seq_increasing. Qed.
 Print Assumptions c29_seq_increasing.
+
+(* ---- the hypotheses are satisfiable; the full ordering statement needs atomic failures ----------- *)
+
+(* the strict-store ports the harness ties to the code on every run (real
+   pkg/db/message store + real infra/cluster adapters behind a scripted fake node)
+   satisfy both contracts, from an empty well-formed log, for EVERY fault script *)
+Theorem c29_contract_satisfiable : forall af lf,
+  ss_log (SS [] af lf []) = [] /\ contig []
+  /\ append_contract sstore ss_do_append ss_log contig
+  /\ lookup_contract sstore ss_do_nlookup idempotencyPayloadHash ss_log.
+Proof. exact ss_hypotheses. Qed.
+Print Assumptions c29_contract_satisfiable.
+
+(* C29-K2 (known finding): without [atomic_failures] the conclusion of
+   c29_seq_increasing is false — one batch [keyed; keyless; keyed] whose append
+   commits and then reports ErrAppendFailed: the keyless send is appended again and
+   gets sequence 4, above the 3 of the later-submitted third item; both are new messages *)
+Theorem c29_seq_increasing_refuted :
+  let p := ss_reach [FFailAfter E_APPEND_FAILED] [] 0 1 k2_events in
+  quiescent sstore p = true /\
+  exists c1 c2, In c1 (p_delivered p) /\ In c2 (p_delivered p)
+    /\ is_fresh sstore ss_log p c1 /\ is_fresh sstore ss_log p c2
+    /\ tagof c1 < tagof c2 /\ r_seq (cp_res c2) < r_seq (cp_res c1).
+Proof. exact seq_increasing_refuted. Qed.
+Print Assumptions c29_seq_increasing_refuted.
+
+(* the property monitor evaluated on implementation histories accepts the history of
+   every quiescent state the pipeline model reaches (one append in flight, atomic failures) *)
+Theorem c29_model_satisfies_monitor : forall St do_append do_nlookup fp slog Wf,
+  append_contract St do_append slog Wf -> lookup_contract St do_nlookup idempotencyPayloadHash slog ->
+  forall s0 hw limit evs, slog s0 = [] -> Wf [] -> (limit <= 1)%Z -> atomic_failures St do_append slog ->
+  let p := reach St do_append do_nlookup idempotencyPayloadHash fp s0 hw limit evs in
+  quiescent St p = true ->
+  let h := hist_of St slog p in
+  C29_monitor (C29Hist (hi_ordered h) (hi_calls h) (hi_sends h) (hi_logs h)) = 0.
+Proof. exact model_case_monitor. Qed.
+Print Assumptions c29_model_satisfies_monitor.
+
+(* non-vacuity: a batch with a coalesced duplicate, a retry of a stored message and a
+   key reuse, over the strict store: the duplicate and the retry return the original
+   (id, seq), the reuse is rejected, one message is stored *)
+Example c29_example_retry_and_reuse :
+  let evs := [PSubmit [(Cmd [117] [97] [112], 7, false, 0); (Cmd [117] [97] [112], 8, false, 0)];
+              PAdvance; PRun 0; PApply 0;
+              PSubmit [(Cmd [117] [97] [112], 9, false, 0)]; PAdvance; PRun 0; PApply 0;
+              PSubmit [(Cmd [117] [97] [113], 10, false, 0)]; PAdvance; PRun 0; PApply 0] in
+  let p := ss_reach [] [] 0 1 evs in
+  map (fun c => (tagof c, r_id (cp_res c), r_seq (cp_res c), is_success (cp_res c), cp_committed c)) (p_delivered p)
+  = [(0, 7, 1, true, true); (1, 7, 1, true, false); (2, 7, 1, true, false); (3, 0, 0, false, false)]
+  /\ map pr_id (ss_log (p_store p)) = [7].
+Proof. vm_compute. split; reflexivity. Qed.
+
+(* the ordering theorems are about the DEFAULT configuration: the regenerated constant
+   defaultAppendInflightBatchesPerChannel keeps one append in flight per channel *)
+Example c29_default_single_inflight : (Z.of_N c29_default_inflight <= 1)%Z.
+Proof. vm_compute. discriminate. Qed.
